@@ -154,10 +154,16 @@ func (g *envGen) randMuts() []Mut {
 	case 0:
 		return []Mut{{K: "mutdata", J: g.r.Intn(64)}}
 	case 1:
+		if g.r.Chance(1, 4) { // nothing left of the ciphertext
+			return []Mut{{K: "mutdata", J: -100000}}
+		}
 		return []Mut{{K: "mutdata", J: -1 - g.r.Intn(30)}}
 	case 2:
 		return []Mut{{K: "mutkey", J: g.r.Intn(64)}}
 	case 3:
+		if g.r.Chance(1, 4) {
+			return []Mut{{K: "mutkey", J: -100000}}
+		}
 		return []Mut{{K: "mutkey", J: -1 - g.r.Intn(30)}}
 	case 4:
 		return []Mut{{K: "datafrom", J: j}}
